@@ -539,6 +539,7 @@ type SpecSet struct {
 	Ghosts  map[string]*GhostVar
 	Chans   map[string]string
 	Secrets map[string]bool // pkg.Type.field marked secret (taint sources)
+	GlobalChanInvs []chanInvDef // invariants of channels held in struct fields: Name is pkg.Type.field
 	Errors  []string
 }
 
@@ -655,6 +656,32 @@ func (ss *SpecSet) ReadSpecFile(path, pkgPrefix string) error {
 				ss.Funcs[key] = cur
 			}
 		default:
+			if kw == "chaninv" {
+				// chaninv NAME v => EXPR   (NAME: a local/captured variable of the current function, or Type.field)
+				f := strings.Fields(rest)
+				k := strings.Index(rest, "=>")
+				if len(f) < 4 || k < 0 || f[2] != "=>" {
+					fail(rc.line, "chaninv NAME v => EXPR")
+					continue
+				}
+				ctmp := &Clause{}
+				body := parseTags(strings.TrimSpace(rest[k+2:]), ctmp)
+				e, err := ParseExpr(body)
+				if err != nil {
+					fail(rc.line, "%v", err)
+					continue
+				}
+				def := chanInvDef{Name: f[0], Var: f[1], Label: ctmp.Label, Src: body, E: e}
+				if strings.Contains(f[0], ".") {
+					def.Name = qualify(f[0], pkgPrefix)
+					ss.GlobalChanInvs = append(ss.GlobalChanInvs, def)
+				} else if cur != nil {
+					cur.ChanInvs = append(cur.ChanInvs, def)
+				} else {
+					fail(rc.line, "chaninv for a local outside func")
+				}
+				continue
+			}
 			if cur == nil {
 				fail(rc.line, "clause %q outside func", kw)
 				continue
@@ -687,8 +714,7 @@ func (ss *SpecSet) ReadSpecFile(path, pkgPrefix string) error {
 					continue
 				}
 				cur.Ghosts = append(cur.Ghosts, Binder{f[0], f[1]})
-			case "chaninv":
-				// chaninv NAME v => EXPR
+			case "chaninv_placeholder":
 				f := strings.Fields(rest)
 				k := strings.Index(rest, "=>")
 				if len(f) < 4 || k < 0 || f[2] != "=>" {
